@@ -3,6 +3,7 @@
 #![allow(dead_code)]
 
 mod alloc;
+mod diff;
 mod exec;
 mod gen;
 mod json;
@@ -103,6 +104,8 @@ fn nontrivial(prop: &str, r: &HistResult) -> bool {
         "C12" => s.consume_ok > 0 && s.links_entries > 0,
         "C13" => s.elide_takes > 0,
         "C14" => s.c14_obs > 0,
+        "C16" => s.dead_drops > 0 || s.dead_clones_attempted > 0,
+        "C07" => s.begins > 0,
         _ => s.ops > 0,
     }
 }
@@ -124,6 +127,7 @@ pub struct Agg {
     pub alloc_modes: [u64; 3],
     pub multi_order_tables: u64,
     pub aborted_histories: u64,
+    pub extra: std::collections::BTreeMap<String, u64>,
 }
 
 impl Agg {
@@ -145,6 +149,7 @@ impl Agg {
             alloc_modes: [0; 3],
             multi_order_tables: 0,
             aborted_histories: 0,
+            extra: Default::default(),
         }
     }
 }
@@ -247,9 +252,10 @@ fn report(prop: &str, agg: &mut Agg, idx: u64, coord: &str, cfg: &HistCfg, r: &H
     let opstr = ops_to_string(&r.ops);
     if nontrivial(prop, r) {
         agg.nontrivial += 1;
-        agg.distinct.insert(hash_str(&opstr));
+        agg.distinct.insert(if r.ops.is_empty() { hash_str(coord) } else { hash_str(&opstr) });
         if agg.samples.len() < 3 {
-            agg.samples.push(format!("{} :: {}", coord, opstr));
+            let extra = DIFF_SAMPLE.with(|d| d.borrow().get(agg.samples.len()).cloned().unwrap_or_default());
+            agg.samples.push(format!("{} :: {}{}", coord, opstr, extra));
         }
     }
     if let Some(why) = &r.inconclusive {
@@ -316,6 +322,13 @@ fn summary(prop: &str, agg: &Agg) -> String {
         .nums("alloc_modes", &agg.alloc_modes)
         .num("multi_order_tables", agg.multi_order_tables)
         .num("aborted_histories", agg.aborted_histories)
+        .raw("extra", &{
+            let mut e = json::Obj::new();
+            for (k, v) in &agg.extra {
+                e = e.num(k, *v);
+            }
+            e.end()
+        })
         .raw("stats", &st.end())
         .raw("paths", &paths)
         .strs("samples", &agg.samples)
@@ -416,6 +429,47 @@ fn cmd_run(a: &Args) -> i32 {
                 let r = run::run_history(&cfg, &mut g, 100_000);
                 (r, format!("{} class={} seed={} idx={} [{}]", gen, class.name(), seed, this, desc))
             }
+            None if gen == "diff" => {
+                let pseed = mix(seed ^ 0xD1FF, this);
+                let len = 15 + (mix(pseed, 3) % a.u64("len", 90)) as usize;
+                let prog = diff::gen_program(pseed, len);
+                let d = diff::run_diff(&prog);
+                let mut res = empty_result();
+                res.stats.ops = d.ops as u64;
+                res.stats.events = d.lines as u64;
+                res.stats.begins = d.drops as u64;
+                res.all_dead = true;
+                res.log = d.transcript_tail.clone();
+                let progstr = format!("{:?}", prog);
+                AGG.with(|ag| {
+                    let mut ag = ag.borrow_mut();
+                    for (k, v) in &d.coverage {
+                        *ag.extra.entry(format!("call:{}", k)).or_insert(0) += v;
+                    }
+                });
+                if let Some((line, c, s)) = d.mismatch {
+                    res.violations.push(world::Violation {
+                        prop: "C07",
+                        rule: "diff",
+                        hard: false,
+                        msg: format!("transcripts differ at line {}: cactusref `{}` vs std::rc `{}`; program {}", line, c, s, progstr),
+                        event_idx: line,
+                        op_idx: 0,
+                        known_sig: None,
+                    });
+                }
+                DIFF_SAMPLE.with(|d| {
+                    let mut d = d.borrow_mut();
+                    if d.len() < 3 {
+                        d.push(progstr.chars().take(700).collect());
+                    }
+                });
+                (res, format!("diff seed={} idx={} pseed={} len={}", seed, this, pseed, len))
+            }
+            None if gen == "deadclone" || gen == "deaddrop" => {
+                let r = run_child(&gen, this, seed);
+                (r.0, r.1)
+            }
             None if gen == "family" => {
                 let (ops, desc) = gen::family_ops(this, seed, class, a.u64("max-n", 12) as usize);
                 let mut it = ops.into_iter();
@@ -451,6 +505,158 @@ fn cmd_run(a: &Args) -> i32 {
     }
     AGG.with(|ag| emit(&format!("S {}", summary(&prop, &ag.borrow()))));
     emit(&format!("D {}", json::Obj::new().boolean("exhausted", exhausted).num("next", idx).end()));
+    0
+}
+
+thread_local! {
+    static DIFF_SAMPLE: std::cell::RefCell<Vec<String>> = std::cell::RefCell::new(Vec::new());
+}
+
+fn empty_result() -> HistResult {
+    HistResult {
+        violations: vec![],
+        inconclusive: None,
+        ops: vec![],
+        stats: Stats::default(),
+        paths: Paths::default(),
+        digest: 0,
+        layout_digest: 0,
+        distinct_orders_max: 0,
+        tables_multi: 0,
+        log: vec![],
+        objects: 0,
+        all_dead: false,
+    }
+}
+
+/// C16: run one scenario in a child process and judge it by its exit status and output.
+fn run_child(gen: &str, idx: u64, seed: u64) -> (HistResult, String) {
+    let exe = std::env::current_exe().expect("current_exe");
+    let out = std::process::Command::new(exe)
+        .args(["child", "--mode", gen, "--idx", &idx.to_string(), "--seed", &seed.to_string()])
+        .output();
+    let mut res = HistResult {
+        violations: vec![],
+        inconclusive: None,
+        ops: vec![],
+        stats: Stats::default(),
+        paths: Paths::default(),
+        digest: 0,
+        layout_digest: 0,
+        distinct_orders_max: 0,
+        tables_multi: 0,
+        log: vec![],
+        objects: 0,
+        all_dead: false,
+    };
+    let out = match out {
+        Ok(o) => o,
+        Err(e) => {
+            res.inconclusive = Some(format!("cannot spawn child: {}", e));
+            return (res, format!("{} idx={}", gen, idx));
+        }
+    };
+    let stdout = String::from_utf8_lossy(&out.stdout).to_string();
+    let stderr = String::from_utf8_lossy(&out.stderr).to_string();
+    let mut desc = String::new();
+    let mut opstr = String::new();
+    let mut done = false;
+    let mut child_viol: Vec<String> = vec![];
+    let mut before = false;
+    let mut after = false;
+    let mut dead_drops = 0u64;
+    for l in stdout.lines() {
+        if let Some(d) = l.strip_prefix("CHILD-DESC ") {
+            desc = d.to_string();
+        } else if let Some(o) = l.strip_prefix("CHILD-OPS ") {
+            opstr = o.to_string();
+        } else if l.starts_with("BEFORE-CLONE") {
+            before = true;
+        } else if l.starts_with("AFTER-CLONE") {
+            after = true;
+        } else if let Some(d) = l.strip_prefix("CHILD-DONE ") {
+            done = true;
+            for kv in d.split_whitespace() {
+                if let Some(v) = kv.strip_prefix("dead_drops=") {
+                    dead_drops = v.parse().unwrap_or(0);
+                }
+            }
+        } else if let Some(v) = l.strip_prefix("CHILD-VIOLATION ") {
+            child_viol.push(v.to_string());
+        }
+    }
+    res.ops = ops::parse_ops(&opstr).unwrap_or_default();
+    res.log = stdout.lines().rev().take(40).collect::<Vec<_>>().into_iter().rev().map(|s| s.to_string()).collect();
+    use std::os::unix::process::ExitStatusExt;
+    let sig = out.status.signal();
+    let code = out.status.code();
+    let mk = |rule: &'static str, msg: String| world::Violation { prop: "C16", rule, hard: true, msg, event_idx: 0, op_idx: 0, known_sig: None };
+    if before {
+        res.stats.dead_clones_attempted = 1;
+        // SIGILL (ud2 from core::intrinsics::abort) or SIGABRT are the expected ways to die
+        let died = matches!(sig, Some(4) | Some(6));
+        if after || !died {
+            res.violations.push(mk(
+                "deadclone",
+                format!(
+                    "cloning a handle to a destroyed object inside a destructor did not terminate the process (AFTER-CLONE printed: {}, signal {:?}, exit code {:?}); stderr: {}",
+                    after,
+                    sig,
+                    code,
+                    stderr.lines().last().unwrap_or("")
+                ),
+            ));
+        }
+    } else {
+        res.stats.dead_drops = dead_drops;
+        if !(done && code == Some(0)) {
+            res.violations.push(mk(
+                "once",
+                format!("scenario that only drops handles to destroyed peers did not complete normally (signal {:?}, exit code {:?}); stderr: {}", sig, code, stderr.lines().last().unwrap_or("")),
+            ));
+        }
+    }
+    for v in child_viol {
+        res.violations.push(mk("once", format!("monitor inside the child: {}", v)));
+    }
+    res.stats.ops = res.ops.len() as u64;
+    (res, format!("{} seed={} idx={} [{}]", gen, seed, idx, desc))
+}
+
+fn cmd_child(a: &Args) -> i32 {
+    install_panic_hook();
+    let mode = match a.get("mode").unwrap_or("deadclone") {
+        "deadclone" => gen::ScriptMode::DeadClone,
+        _ => gen::ScriptMode::DeadDrop,
+    };
+    let idx = a.u64("idx", 0);
+    let seed = a.u64("seed", 1);
+    let (ops, desc) = gen::script_ops(idx, seed, mode);
+    println!("CHILD-DESC {}", desc);
+    println!("CHILD-OPS {}", ops_to_string(&ops));
+    let _ = std::io::stdout().flush();
+    let value_offset = run::measure_value_offset();
+    let cfg = HistCfg {
+        class: Class::Dead,
+        alloc_mode: (mix(idx, 77) % 3) as u8,
+        layout_seed: mix(idx, seed),
+        teardown: true,
+        check_links: true,
+        check_mem: true,
+        value_offset,
+        hard_exit: false,
+    };
+    let mut it = ops.into_iter();
+    let mut g = |_: &World| it.next();
+    let r = run::run_history(&cfg, &mut g, 100_000);
+    for v in &r.violations {
+        println!("CHILD-VIOLATION {} {} {}", v.prop, v.rule, v.msg);
+    }
+    if let Some(w) = &r.inconclusive {
+        println!("CHILD-INCONCLUSIVE {}", w);
+    }
+    println!("CHILD-DONE dead_drops={} begins={}", r.stats.dead_drops, r.stats.begins);
+    let _ = std::io::stdout().flush();
     0
 }
 
@@ -505,6 +711,7 @@ fn main() {
     let code = match argv[0].as_str() {
         "run" => cmd_run(&a),
         "replay" => cmd_replay(&a),
+        "child" => cmd_child(&a),
         "version" => {
             println!("vh {} monalloc={}", env!("CARGO_PKG_VERSION"), alloc::ENABLED);
             0
